@@ -405,6 +405,65 @@ def run(ck, ctx):
               f"{sum(1 for e in r.effects if e.kind == 'write')} in-place operations inspected")
     ck.guard(stage_arguments, "R04.9")
 
+    # ---------------------------------------------------------------- R04.10 fixed-energy samplers reject too
+    def fixed_energy_samplers():
+        """the sampler factories of cdf.py that are built for one neutrino energy (`f(grid, log_e_nu)`) take their
+        energy slice through a look-up that rejects an energy outside the table: a library interpolator evaluated at
+        the energy itself with its bounds check on, or an explicit range test on the energy that raises"""
+        from .common import CDF_MOD
+        mod = ctx.prog.modules.get(CDF_MOD)
+        if mod is None:
+            raise AnalysisError("nuspacesim.utils.cdf not found")
+        J = ctx.interp()
+        gj = J.g
+        facts = [f for name, f in sorted(J.module(CDF_MOD).functions.items())
+                 if "." not in name and {"grid", "log_e_nu"} <= {a.arg for a in f.node.args.args}]
+        ck.floor("R04.10", len(facts), 1, "sampler factories built for one neutrino energy")
+        for f in facts:
+            params = [a.arg for a in f.node.args.args]
+            n_def = len(f.node.args.defaults)
+            need = params[:len(params) - n_def]
+            grid, e = J.input("grid", kind="obj"), J.input("log_e_nu", kind="float")
+            n0 = len(gj.nodes)
+            r = J.run(J.func_node(f), [grid if p_ == "grid" else e if p_ == "log_e_nu" else J.input(p_) for p_ in need])
+            new = gj.nodes[n0:]
+            looks = []
+            for n, q, kws in interpolator_calls(new):
+                # the interpolator object evaluated at a point: Call(<interpolator>, point); interpn takes xi directly
+                if q == "scipy.interpolate.interpn" or q == "numpy.interp":
+                    pts = [n]
+                else:
+                    pts = [c for c in new if c.op == "Call" and c.args and c.args[0] is n]
+                for c in pts:
+                    pos, _ = call_args(c) if c is n else (list(c.args[1:]), {})
+                    at = pos[2] if (c is n and q == "scipy.interpolate.interpn" and len(pos) > 2) else \
+                        (pos[0] if pos else None)
+                    if at is not None and any(x is e for x in walk([at])):
+                        looks.append((n, q, kws, at))
+            def tests_energy(c):
+                return any(x.op == "Compare" and any(a is e or strip_cast(a) is e for a in x.args) for x in walk([c]))
+            guards = [ef for ef in r.effects if ef.kind == "raise" and any(tests_energy(c) for c, _p in (ef.pc or ()))]
+            ok = None
+            detail = "no look-up at the energy found"
+            if looks:
+                n, q, kws, at = looks[0]
+                bare = strip_cast(at) is e or at is e
+                bad = [k for k in kws if k in ("bounds_error", "fill_value")]
+                ok = bare and not bad
+                detail = f"{q.split('.')[-1]} at {gj.show(at, 2)}; keywords {sorted(kws)}"
+            elif guards:
+                ok = True
+                detail = f"{len(guards)} range test(s) on the energy that raise"
+            elif any(x is e for x in walk([r.value] if r.value is not None else [])) or \
+                    any(any(x is e for x in walk([y])) for y in new if y.op == "Subscript"):
+                ok = False
+                detail = "the energy reaches the table through hand-written arithmetic: nothing rejects a value " \
+                         "outside the axis (a clipped bracket index extrapolates)"
+            ck.ob("R04.10", f"{f.qualname}: an energy outside the table is rejected, not extrapolated", ok,
+                  looks[0][0] if looks else (r.value if r.value is not None else grid), f.qualname, detail,
+                  construct=f"{f.qualname}: energy slice of a fixed-energy sampler")
+    ck.guard(fixed_energy_samplers, "R04.10")
+
 
 def configured_table_rules(ck, rule, ctx, attr, what):
     """The table a Taus object samples from is the file of ITS configured version.  Replays the history 'a second
